@@ -1,0 +1,25 @@
+// Add-only test shim (build tag verif): package-level tables and constants.
+
+//go:build verif
+// +build verif
+
+package meta
+
+// VerifShared returns a dump of the package-level coders and LUT.
+func VerifShared() []uint32 {
+	out := append(encHuff.VerifDump(), decHuff.VerifDump()...)
+	for _, b := range oneBitsLUT {
+		out = append(out, uint32(b))
+	}
+	return out
+}
+
+// VerifConsts returns magicVals, magicMask, maxSyms, the Huffman length and
+// repeat limits, and the size constants.
+func VerifConsts() []uint32 {
+	return []uint32{magicVals, magicMask, maxSyms, minHuffLen, maxHuffLen, minRepLast, maxRepLast, minRepZero, maxRepZero,
+		MinRawBytes, MaxRawBytes, MinEncBytes, MaxEncBytes, EnsureRawBytes}
+}
+
+// VerifComputeHuffLen exposes Writer.computeHuffLen.
+func VerifComputeHuffLen(zeros, ones int) (uint, bool) { return (*Writer)(nil).computeHuffLen(zeros, ones) }
